@@ -175,8 +175,13 @@ func c19Schema(r *rng.Rand) (*spec.Node, bool) {
 			deep := false
 			switch x.Elem.Kind {
 			case spec.Struct:
-				// (pointer elements are left to c19PointerDefault: as Parse *input* a pointer leaf is rendered with %v, i.e. by address)
+				// (pointers are left to c19PointerDefault: as Parse *input* a pointer leaf is rendered with %v, i.e. by address)
 				deep = true
+				x.Elem.Walk(func(e *spec.Node) {
+					if e.Kind == spec.Ptr {
+						deep = false
+					}
+				})
 			case spec.Custom:
 				deep = x.Elem.CustomT.Name == "[]int"
 			}
